@@ -1070,6 +1070,7 @@ func main() {
 		fmt.Fprintln(os.Stderr, "usage: srcgen -out DIR [-repo /repo] [-summary file.json]")
 		os.Exit(2)
 	}
+	_ = os.MkdirAll(*outDir, 0o755)
 	var changed []string
 	var names []string
 	for name := range generators {
